@@ -128,12 +128,16 @@ class ImmuneSystem:
                 violations=[],
             )
 
-        # Check memory for known threats
-        recalled = self.memory.recall_by_hashes(
-            agent_id=agent_id,
-            vocabulary_hash=peptide.vocabulary_hash,
-            structure_hash=peptide.structure_hash,
-        )
+        # Check memory for known threats - a remembered threat is only a second
+        # signal: the current behaviour must still violate the baseline, and a
+        # desensitised (anergic) T-cell stays silent
+        recalled = None
+        if not tcell.is_anergic and tcell.profile.check(peptide):
+            recalled = self.memory.recall_by_hashes(
+                agent_id=agent_id,
+                vocabulary_hash=peptide.vocabulary_hash,
+                structure_hash=peptide.structure_hash,
+            )
 
         if recalled is not None:
             # Known threat - fast response
